@@ -54,8 +54,51 @@ func FindRoots(p *Program, r *Report) *Roots {
 		r.Fatalf("ANCHOR-UNRESOLVED: handler.Handler4/6 or plugins.SetupFunc4/6")
 		return ro
 	}
+	// a plain function is a handler/setup only if it is used as a value somewhere
+	// (returned by a setup function, stored in a Plugin literal, ...): a helper that
+	// merely happens to have the handler signature is only ever called directly
+	asValue := map[*ssa.Function]bool{}
+	var scan []*ssa.Function
+	for fn := range p.AllFunctions() {
+		if FirstParty(fn) && len(fn.Blocks) > 0 { // package initialisers (Plugin literals) included
+			scan = append(scan, fn)
+		}
+	}
+	for _, fn := range scan {
+		for _, b := range fn.Blocks {
+			for _, in := range b.Instrs {
+				var callee ssa.Value
+				if ci, ok := in.(ssa.CallInstruction); ok {
+					callee = ci.Common().Value
+				}
+				for _, op := range in.Operands(nil) {
+					if op == nil || *op == nil {
+						continue
+					}
+					if f, ok := (*op).(*ssa.Function); ok {
+						if f == callee {
+							// also an argument of its own call? count only non-callee positions
+							n := 0
+							for _, op2 := range in.Operands(nil) {
+								if op2 != nil && *op2 == ssa.Value(f) {
+									n++
+								}
+							}
+							if n < 2 {
+								continue
+							}
+						}
+						asValue[f] = true
+					}
+				}
+			}
+		}
+	}
 	for _, fn := range p.SrcFuncs() {
 		sg := sigNoRecv(fn.Signature)
+		if fn.Signature.Recv() == nil && fn.Parent() == nil && !asValue[fn] {
+			continue
+		}
 		switch {
 		case sameSig(sg, h4):
 			ro.Handlers4 = append(ro.Handlers4, fn)
